@@ -679,6 +679,18 @@ pub fn net_case(rng: &mut Rng, thorough: bool) -> String {
     // one network in eight has weights of large magnitude (small lattice values times 2^5 .. 2^12): the solver's vertices
     // then miss `contains` by more than its absolute tolerance and the repair heuristics are exercised
     let big: f64 = if rng.chance(1, 8) { (2.0f64).powi(5 + rng.below(8) as i32) } else { 1.0 };
+    // now and then a head in the middle of the network (a classifier feeding a second network): the pruned composition
+    // of a head is then followed by eliminations and by another pruned composition on the same tree
+    if !head_only && rng.chance(1, 6) {
+        let width = 2 + rng.below(3);
+        layers.push(Layer::Linear(rand_aff(rng, width, dim)));
+        if rng.chance(2, 3) {
+            layers.push(Layer::Argmax);
+        } else {
+            layers.push(Layer::ClassChar(rng.below(width)));
+        }
+        dim = 1;
+    }
     for _ in 0..hidden {
         let width = 1 + rng.below(3);
         let mut a = rand_aff(rng, width, dim);
